@@ -128,6 +128,17 @@ func init() {
 				var prog *GProgram
 				if i%7 == 3 {
 					prog = g.overdraftOriginProgram() // needs --experimental-overdraft-function to reach the interpreter
+				} else if i%9 == 4 {
+					// texts that a printf would mangle, in both kinds of metadata
+					g.asset = "USD"
+					v := r.Pick([]string{"100%", "%d of %s", "2.5%!", "%v%%", "50% off"})
+					g.prog.Vars = append(g.prog.Vars, &GVarDecl{Type: "string", Name: "note"})
+					g.rawVars["note"] = v
+					g.prog.Stmts = append(g.prog.Stmts,
+						&GStmt{Kind: StSend, Sent: &GSent{E: lit("USD", bi(int64(1+r.Intn(20))))}, Src: srcAcct("world"), Dst: dstAcct("a")},
+						&GStmt{Kind: StCall, Call: &GFnCall{Name: "set_tx_meta", Args: []*GExpr{{Kind: XString, S: "note"}, {Kind: XVar, S: "note"}}}},
+						&GStmt{Kind: StCall, Call: &GFnCall{Name: "set_account_meta", Args: []*GExpr{acct("a"), {Kind: XString, S: "rate"}, {Kind: XString, S: r.Pick([]string{"2.5%", "%s", "100%"})}}}})
+					prog = g.prog
 				} else {
 					prog = g.Program()
 				}
